@@ -238,7 +238,9 @@ func (d *segmentationDescriptor) parseDescriptor(data []byte) error {
 			if buf.Len() < 10 {
 				return gots.ErrInvalidSCTE35Length
 			}
-			d.duration = uint40(buf.Next(5))
+			// segmentation_duration is a full 40 bit field (uint40 only keeps 33 bits)
+			dur := buf.Next(5)
+			d.duration = gots.PTS(dur[0])<<32 | gots.PTS(binary.BigEndian.Uint32(dur[1:]))
 		}
 		// Upid unneeded now...
 		d.upidType = SegUPIDType(readByte())
